@@ -142,6 +142,40 @@ class DstScenario:
             return self.cancel()
         raise symex.HarnessError(f"cannot replay {ev}")
 
+    # -- canonical prefixes: drive the receiver into the late steps with symbolic sizes
+    PREFIXES = {
+        "none": [],
+        "delivered": ["MD", "FD0", "EOF", "TICK0"],          # acked: WAITING_FOR_FINISHED_ACK
+        "eof_missing": ["MD", "EOF", "TICK0"],                # acked: WAITING_FOR_MISSING_DATA; unacked: check limit
+        "fd_first": ["FDX0"],                                 # acked: WAITING_FOR_METADATA
+        "eof_first": ["EOF", "TICK0"],                        # acked: WAITING_FOR_METADATA with deferred procedure
+        "half": ["MD", "FDH"],                                # first half of the file received
+    }
+
+    def run_prefix(self, name):
+        out = []
+        for ev in self.PREFIXES[name]:
+            if ev == "MD":
+                o = self.md()
+            elif ev == "FD0":
+                self.ctx.assume(self.S <= LMAX)
+                o = self.fd(0, self.S)
+            elif ev == "FDH":
+                h = self.ctx.int(self.vp + "half", 0, LMAX)
+                self.ctx.assume(h <= self.S)
+                o = self.fd(0, h)
+            elif ev == "FDX0":
+                n = self.ctx.int(self.vp + "pn", 0, LMAX)
+                o = self.fd(self.ctx.int(self.vp + "po", 0, OMAX), n)
+            elif ev == "EOF":
+                o = self.eof()
+            elif ev == "TICK0":
+                o = self.tick0()
+            else:
+                raise symex.HarnessError(ev)
+            out.append(o)
+        return out
+
     # -- generic event chooser
     def step(self, alphabet):
         i = f"{self.vp}{self.n}"
